@@ -99,15 +99,12 @@ Theorem C10_source_is_model : forall n A r1 r2 dt J1 J2 ls1 li1 ls2 li2,
   src_ts_tabulate J1 J2 ls1 li1 ls2 li2 n = ts_tabulate J1 J2 ls1 li1 ls2 li2 n /\
   src_ts_rates n (src_ts_tabulate J1 J2 ls1 li1 ls2 li2 n) (axes_grid ls1 li1 n) (axes_grid ls2 li2 n) dt
     = setup_ts_rates J1 J2 ls1 li1 ls2 li2 n dt.
-Proof.
-  exact (fun n A r1 r2 dt J1 J2 ls1 li1 ls2 li2 =>
-    conj (src_ts_rates_eq n A r1 r2 dt) (conj (src_ts_tabulate_eq J1 J2 ls1 li1 ls2 li2 n) (src_setup_ts_rates_eq J1 J2 ls1 li1 ls2 li2 n dt))).
-Qed.
+Proof. exact src_ts_is_model. Qed.
 
 Theorem C10_source_wrappers : forall J ls li n dt,
   src_setup_ts_rates_self J ls li n dt = setup_ts_rates J J ls li ls li n dt /\
   src_ts_visibilities_identical J ls li n = setup_ts_visibilities_identical J ls li n.
-Proof. exact (fun J ls li n dt => conj (src_setup_ts_rates_self_eq J ls li n dt) (src_ts_visibilities_identical_eq J ls li n)). Qed.
+Proof. exact src_ts_wrappers. Qed.
 
 (* ---- non-vacuity *)
 Example C10_nonvacuous_norm : jsi_norm ROps (2 * 2) (fun _ => (1, 0)) <> 0.
